@@ -13,6 +13,7 @@ import (
 	"github.com/risor-io/risor/compiler"
 	"github.com/risor-io/risor/errz"
 	"github.com/risor-io/risor/importer"
+	"github.com/risor-io/risor/internal/verifhook"
 	"github.com/risor-io/risor/object"
 	"github.com/risor-io/risor/op"
 	"github.com/risor-io/risor/os"
@@ -129,8 +130,12 @@ func (vm *VirtualMachine) start(ctx context.Context) error {
 	// Halt execution when the context is cancelled
 	vm.halt = 0
 	if doneChan := ctx.Done(); doneChan != nil {
+		tok := verifhook.Spawn("vm.watcher")
 		go func() {
+			verifhook.Start(tok)
+			defer verifhook.Exit(tok)
 			<-doneChan
+			verifhook.Yield("vm.watcher.fire")
 			atomic.StoreInt32(&vm.halt, 1)
 		}()
 	}
@@ -282,6 +287,7 @@ func (vm *VirtualMachine) eval(ctx context.Context) error {
 	// Run to the end of the active code
 	for vm.ip < len(vm.activeCode.Instructions) {
 
+		verifhook.Yield("vm.eval")
 		if atomic.LoadInt32(&vm.halt) == 1 {
 			return ctx.Err()
 		}
@@ -1013,6 +1019,7 @@ func (vm *VirtualMachine) importModule(ctx context.Context, name string) (*objec
 	if vm.importer == nil {
 		return nil, fmt.Errorf("imports are disabled")
 	}
+	verifhook.Yield("vm.import")
 	module, err := vm.importer.Import(ctx, name)
 	if err != nil {
 		return nil, err
@@ -1060,6 +1067,7 @@ func (vm *VirtualMachine) importModule(ctx context.Context, name string) (*objec
 func (vm *VirtualMachine) Clone() (*VirtualMachine, error) {
 	// Locking cloneMutex is done to prevent clones while code is being loaded
 	// or modules are being imported
+	verifhook.Yield("vm.clone")
 	vm.cloneMutex.Lock()
 	defer vm.cloneMutex.Unlock()
 
